@@ -33,6 +33,8 @@ AttrAt(kind, i, pre) ==
                                   Call(pre \o "fan" \o N(i), StrS(<<100, 121, 110>>, "dyn")), "array", <<"trim">>)
     [] kind = "vmodels" -> VModels(<<VModel(Member(pre \o "om", "u" \o N(i), S(<<50>>)), "none", "", Undefined, "none", <<>>),
                                       VModel(Member(pre \o "om", "w" \o N(i), S(<<51>>)), "str2", "title", Undefined, "array", <<"trim">>)>>)
+    [] kind = "vslots"  -> VSlots(Call(pre \o "fvs" \o N(i), Obj(<< <<"foo", FnR("vsf" \o N(i), S(<<118>>))>> >>)))
+    [] kind = "vslotso" -> VSlots(ObjLit(<< <<"foo", Call(pre \o "fvo" \o N(i), FnR("vso" \o N(i), S(<<118>>)))>> >>))
     [] kind = "static"  -> Plain("s" \o N(i), AvStr(<<"a">>))
 
 Inner(pre) == Elem(TagHtml("span"), <<AttrAt("call", 1, pre)>>, <<ChExpr(Call(pre \o "gk", Num(5)))>>)
@@ -46,6 +48,7 @@ KidAt(kind, j) ==
     [] kind = "text"    -> ChText(<<"a">>)
     [] kind = "spread"  -> ChSpread(Call("gs" \o N(j), Arr(<<Num(j)>>)))
     [] kind = "spreadarr" -> ChSpread(ArrLit(<<Call("gsa" \o N(j), Num(j)), Member("oc", "y" \o N(j), Num(40 + j))>>))
+    [] kind = "objlit"  -> ChExpr(ObjLit(<< <<"default", Arrow(Lit(Num(1)))>>, <<"bar", Call("gob" \o N(j), FnR("ob" \o N(j), Num(2)))>> >>))
     [] kind = "elem"    -> ChElem(Inner("e" \o N(j)))
     [] kind = "comp"    -> ChElem(InnerComp("k" \o N(j)))
     [] kind = "direlem" -> ChElem(Elem(TagHtml("span"), <<Dir("kebab", <<"show">>, "", <<>>, AvExpr(Call("dsv" \o N(j), Bool(TRUE))))>>,
@@ -61,6 +64,8 @@ NamesOK(as) ==       \* only class / style / listeners / spreads may repeat (and
   /\ \A i, j \in 1..Len(as) : i < j /\ as[i].k = as[j].k /\ as[i].k \in {"vhtml", "vmodel", "vmodels", "vslots"} => FALSE
   /\ \A i, j \in 1..Len(as) : ~(as[i].k = "vmodels" /\ as[j].k = "vmodel")      \* the list already binds modelValue
 ValidFor(h, as) == (h.k = "frag" => as = <<>>) /\ NamesOK(as)
+                   /\ (h.k # "comp" => \A i \in 1..Len(as) : as[i].k # "vslots")       \* v-slots is for components
+                   /\ \A vi, vj \in 1..Len(as) : vi < vj => ~(as[vi].k = "vslots" /\ as[vj].k = "vslots")
                    /\ \A i, j \in 1..Len(as) : i < j => ~(as[i].k \in {"vmodel", "vhtml"} /\ as[j].k = as[i].k)
 
 (* a repeated `on` attribute is a repeated listener *object* only under transformOn; without it `on` is a     *)
@@ -103,8 +108,17 @@ RawB(n) ==
       h == Digit(n3, Len(Host3Q))
   IN [tag |-> Host3Q[h], attrs |-> Attr3Q[a], kids |-> Kid3Q[k], oc |-> OptQ[o]]
 
+(* v-slots (a call / an object literal with a call inside) beside every kind of single child, on component hosts *)
+VSlotRaw == SetToSeq({[tag |-> h, attrs |-> as, kids |-> ks, oc |-> oc] :
+                        h \in {TagComp("Foo", TRUE, Opq("vFoo")), TagComp("Bar", FALSE, Undef)},
+                        as \in {<<AttrAt("vslots", 1, "")>>, <<AttrAt("vslotso", 1, "")>>, <<AttrAt("call", 1, ""), AttrAt("vslots", 2, "")>>,
+                                 <<AttrAt("vslotso", 1, ""), AttrAt("call", 2, "")>>},
+                        ks \in {<<>>} \cup {<<KidAt(k, 1)>> : k \in {"objlit", "call", "trivial", "text", "elem", "arr"}}
+                                 \cup {<<KidAt("call", 1), KidAt("text", 2)>>},
+                        oc \in OptCombos})
 RawSeq == SelectSeq([n \in 1..(NA + NB) |-> IF n <= NA THEN RawA(n - 1) ELSE RawB(n - NA - 1)],
                     LAMBDA r : ValidFor(r.tag, r.attrs) /\ OnOK(r.attrs, Combo(r.oc)[3]))
+          \o VSlotRaw
 
 CaseSeq ==
   [i \in 1..Len(RawSeq) |->
